@@ -104,6 +104,7 @@ package decoders
 //@ ensures [unterminated-last-line-is-decoded] imp(result_of(reader.ReadString, 1) == io.EOF && len(strings.TrimSpace(result_of(reader.ReadString, 0))) > 0, calls(util.DecodeHeader) + calls(uripost.DecodeURI) == 1)
 //@ ensures [end-of-file-is-reported] imp(result_of(reader.ReadString, 1) == io.EOF && len(strings.TrimSpace(result_of(reader.ReadString, 0))) == 0, result1 == io.EOF && result0 == nil)
 //@ ensures [blank-line-yields-nothing] imp(result_of(reader.ReadString, 1) == nil && len(strings.TrimSpace(result_of(reader.ReadString, 0))) == 0, result0 == nil && result1 == nil)
+//@ at call a.Setup assert [own-copy-of-the-headers] arg(header) != commonHeader && arg(header) != d.decodedConfigHeaders && fresh(arg(header))
 //@ at call a.Setup assert [post-request] arg(method) == "POST" && arg(url) == result_of(uripost.DecodeURI, 1) && arg(tag) == result_of(uripost.DecodeURI, 2)
 //@ at call a.Setup assert [body-has-the-announced-size] len(arg(body)) == result_of(uripost.DecodeURI, 0)
 //@ at call io.ReadFull assert [body-is-read-from-the-file-right-after-the-line] arg(a0) == box(reader0) && len(arg(a1)) == result_of(uripost.DecodeURI, 0)
@@ -152,6 +153,7 @@ package decoders
 //@ loop 1 invariant [key-not-in-file-headers] !has(commonHeader, k)
 //@ loop 1 invariant [key-canonical] canon(k) == k
 //@ loop 1 invariant [file-headers-have-priority] forall_t(q, string, imp(has(commonHeader, q), has(header, q) && header[q] == commonHeader[q]))
+//@ at call a.Setup assert [own-copy-of-the-headers] arg(header) != commonHeader && arg(header) != d.decodedConfigHeaders && fresh(arg(header))
 //@ at call a.Setup assert [get-request] arg(method) == "GET" && arg(url) == result_of(strings.Cut, 0) && arg(tag) == result_of(strings.Cut, 1) && len(arg(body)) == 0
 //@ at call a.Setup assert [file-headers-have-priority] forall_t(q, string, imp(has(commonHeader, q), has(arg(header), q) && arg(header)[q] == commonHeader[q]))
 //@ at call strings.Cut assert [uri-then-tag] arg(a0) == result_of(strings.TrimSpace, 0) && arg(a1) == " "
